@@ -152,7 +152,7 @@ def loop_nothr_max(ctx):
 GROUPS = [guard(mstep_ml), guard(avg_post), guard(argmax_lemmas), guard(loop_thr_max), guard(loop_thr_nomax), guard(loop_nothr_max)]
 SHARED = [("C02", "estep_post", ["C02.estep.n", "C02.estep.sum_px", "C02.estep.sum_pxx", "C02.estep.log_likelihood", "C02.estep.t"]),
           ("C02", "split_lemma", ["C02.split"])]
-REPLAY = [("C03.m.", "gmm_repro.py", "ml_mstep", {}), ("C03.avg", "gmm_repro.py", "ml_mstep", {}), ("C02.mstep", "gmm_repro.py", "ml_mstep", {}),
+REPLAY = [("C03.loop.body", "gmm_repro.py", "dask_isolated", {"trainer": "ml"}), ("C03.m.", "gmm_repro.py", "ml_mstep", {}), ("C03.avg", "gmm_repro.py", "ml_mstep", {}), ("C02.mstep", "gmm_repro.py", "ml_mstep", {}),
           ("C03.loop", "gmm_repro.py", "fit_loop", {"trainer": "ml"})]
 TRUSTED = ["L-EM: for a finite mixture, L(Θ') - L(Θ) >= Q(Θ'|Θ) - Q(Θ|Θ) (Jensen); with the E-step exact (C02) and each updated block the "
            "argmax of Q (C03.m.*, C03.argmax.*) the average log-likelihood cannot decrease",
@@ -160,3 +160,4 @@ TRUSTED = ["L-EM: for a finite mixture, L(Θ') - L(Θ) >= Q(Θ'|Θ) - Q(Θ|Θ) (
            "Dask contract of DESIGN §3 (delayed/compute, to_delayed block order)"]
 ASSUMPTIONS = ["no variance floor or count floor active for the ascent clause (as in the property statement)",
                "average log-likelihood of the previous iteration is non-zero (division in the convergence test)"]
+XCHECK = ['gmm']
